@@ -56,6 +56,7 @@ class Region(object):
         self.writes = set()
         self.unknown_read = False
         self.unknown_write = False
+        self.align = 1            # alignment of the object's first octet that its definition guarantees
 
     def initial(self, off):
         if self.kind == 'havoc':
@@ -180,10 +181,13 @@ class Machine(object):
                 self.gcache[key] = mem
             init = self.gcache[key]
         r = Region('@' + name, 'global', size, init, writable=not g.const)
+        galign = getattr(g, 'align', None) or 1
+        r.align = galign
         if not g.const:
             # a writable global: its content at the time of the call is whatever earlier calls left there -
             # symbolic, so that dependence on it shows up in the closed forms
             r = Region('@' + name, 'sym', size, None, writable=True)
+            r.align = galign
         self.w.regions['@' + name] = r
         return r
 
@@ -637,7 +641,8 @@ class Machine(object):
                     cnt = self.operand(ins.x['count'])
                     if not isinstance(cnt, int):
                         self.undecided('variable-length alloca with a non-constant size')
-                r = Region(name, 'undef', mod.sizeof(ins.x['aty']) * cnt)
+                r = Region(name, getattr(self, 'alloca_kind', 'undef'), mod.sizeof(ins.x['aty']) * cnt)
+                r.align = ins.x.get('align') or 1
                 w.regions[name] = r
                 fr.allocas.append(name)
                 fr.regs[ins.dest] = Ptr(name, 0)
@@ -774,6 +779,12 @@ class Machine(object):
                         # the address is an unknown number: base address of the region (symbolic, any alignment)
                         # plus the known offset.  Tests such as (uintptr_t)p % 4 then fork on the placement.
                         base = sym_arg('&' + a.region, wt)
+                        reg = self.w.regions.get(a.region)
+                        al = getattr(reg, 'align', 1) or 1
+                        if al > 1 and not (al & (al - 1)):
+                            # a stack object or global: its definition fixes the low address bits
+                            k = al.bit_length() - 1
+                            base = (0,) * k + tuple(base[k:])
                         v = B.v_add(base, a.off & B.mask(wt), wt)
                         self.ptrints[B.to_bits(v, wt)] = a
                         fr.regs[ins.dest] = v
@@ -798,7 +809,16 @@ class Machine(object):
             if op in ('fptrunc', 'fpext', 'fptoui', 'fptosi', 'uitofp', 'sitofp', 'fneg',
                       'fadd', 'fsub', 'fmul', 'fdiv', 'frem', 'fcmp'):
                 wt = type_bits(mod, ins.ty) or 1
-                fr.regs[ins.dest] = B.v_top(wt)
+                vals = [self.operand(a) for a in ins.args]
+                if all(isinstance(v, int) for v in vals):
+                    r = fp_concrete(mod, op, ins, vals, wt)
+                    if r is not None:
+                        fr.regs[ins.dest] = r
+                        continue
+                # symbolic floating-point arithmetic is not interpreted: the result is a fresh unconstrained value (named
+                # by its position in this execution, so that re-execution under a decision prefix reproduces it)
+                self.fp_n = getattr(self, 'fp_n', 0) + 1
+                fr.regs[ins.dest] = tuple(('A', 'fp%d' % self.fp_n, i) for i in range(wt))
                 continue
             self.undecided('unsupported instruction %s' % op)
 
@@ -1018,11 +1038,80 @@ def fmt_loc(l):
     return '%s:%s (%s)' % (f or '?', line, fn)
 
 
+def _fp_dec(bits, w):
+    import struct
+    return struct.unpack('<d', struct.pack('<Q', bits))[0] if w == 64 else struct.unpack('<f', struct.pack('<I', bits))[0]
+
+
+def _fp_enc(x, w):
+    import struct
+    try:
+        return struct.unpack('<Q', struct.pack('<d', x))[0] if w == 64 else struct.unpack('<I', struct.pack('<f', x))[0]
+    except OverflowError:
+        return None
+
+
+def fp_concrete(mod, op, ins, vals, wt):
+    """IEEE-754 float/double operations on concrete operands (bit patterns); None if not handled"""
+    import math
+    try:
+        if op in ('sitofp', 'uitofp'):
+            sw = type_bits(mod, ins.args[0][0])
+            v = vals[0]
+            if op == 'sitofp' and v >> (sw - 1):
+                v -= 1 << sw
+            return _fp_enc(float(v), wt) if wt in (32, 64) else None
+        sw = type_bits(mod, ins.args[0][0])
+        if sw not in (32, 64):
+            return None
+        a = _fp_dec(vals[0], sw)
+        if op in ('fptoui', 'fptosi'):
+            if math.isnan(a) or math.isinf(a):
+                return None
+            v = int(a)
+            if op == 'fptoui' and not (0 <= v < (1 << wt)):
+                return None
+            if op == 'fptosi' and not (-(1 << (wt - 1)) <= v < (1 << (wt - 1))):
+                return None
+            return v & B.mask(wt)
+        if op in ('fpext', 'fptrunc'):
+            return _fp_enc(a, wt) if wt in (32, 64) else None
+        if op == 'fneg':
+            return vals[0] ^ (1 << (sw - 1))
+        b = _fp_dec(vals[1], sw)
+        if op == 'fcmp':
+            pred = ins.x.get('pred')
+            un = math.isnan(a) or math.isnan(b)
+            table = {'oeq': (not un) and a == b, 'ogt': (not un) and a > b, 'oge': (not un) and a >= b,
+                     'olt': (not un) and a < b, 'ole': (not un) and a <= b, 'one': (not un) and a != b, 'ord': not un,
+                     'ueq': un or a == b, 'ugt': un or a > b, 'uge': un or a >= b, 'ult': un or a < b, 'ule': un or a <= b,
+                     'une': un or a != b, 'uno': un, 'true': True, 'false': False}
+            return int(table[pred]) if pred in table else None
+        if wt not in (32, 64):
+            return None
+        if op == 'fadd':
+            r = a + b
+        elif op == 'fsub':
+            r = a - b
+        elif op == 'fmul':
+            r = a * b
+        elif op == 'fdiv':
+            if b == 0:
+                return None
+            r = a / b
+        else:
+            return None
+        return _fp_enc(r, wt)
+    except (ValueError, OverflowError, KeyError):
+        return None
+
+
 def sym_arg(name, w):
     return tuple(('A', name, i) for i in range(w))
 
 
-def analyse(mod, fname, make_args, max_worlds=64, max_steps=600000, gcache=None, externals=None, overrides=None):
+def analyse(mod, fname, make_args, max_worlds=64, max_steps=600000, gcache=None, externals=None, overrides=None,
+            alloca_kind='undef'):
     """Run `fname` in every world.  make_args() -> (args, regions) must build
     fresh argument values and regions for each execution.  Returns the list of
     World objects (status 'ok' or 'undecided')."""
@@ -1042,6 +1131,7 @@ def analyse(mod, fname, make_args, max_worlds=64, max_steps=600000, gcache=None,
         plen = len(prefix)
         args, regions = make_args()
         m = Machine(mod, regions, prefix, max_steps, gcache)
+        m.alloca_kind = alloca_kind     # 'sym': stack objects start with arbitrary (but fixed) content instead of 'uninitialised'
         if externals:
             m.externals = externals
         if overrides:
